@@ -1037,8 +1037,13 @@ impl World {
                     AnyHandle::Once(hd) => fetch!(hd, Once),
                     AnyHandle::Struct(hd) => fetch!(hd, Struct),
                 };
+                let foreign = self.books[ai].as_ref().map(|b| b.uid != hr.uid).unwrap_or(true);
                 if contains != got.is_some() || fpanic == contains {
-                    self.alarms.push(format!("DynamicRootSet: contains={contains} try_fetch.is_ok={} fetch panicked={fpanic} disagree", got.is_some()));
+                    self.alarms.push(format!("DynamicRootSet: contains={contains} try_fetch.is_ok={} fetch panicked={fpanic} disagree{}", got.is_some(),
+                        if foreign { " (handle issued by ANOTHER arena)" } else { "" }));
+                }
+                if foreign && (contains || got.is_some() || !fpanic) {
+                    self.alarms.push(format!("DynamicRootSet: a handle issued by ANOTHER arena was accepted (contains={contains} try_fetch.is_ok={} fetch panicked={fpanic})", got.is_some()));
                 }
                 if let Some(g) = got { setr(cb, r, Some(g)); }
                 let sid = self.uid_of(ai, &sp);
